@@ -148,6 +148,7 @@ func main() {
 	if err != nil {
 		fail("%v", err)
 	}
+	oldLoopVars = goModBefore122(repo)
 	stdImp = importer.ForCompiler(fset, "source", nil).(types.ImporterFrom)
 	overlay := map[string]string{}
 	for _, d := range pkgDirs {
@@ -247,6 +248,112 @@ func containsArrow(n ast.Node) bool {
 	return found
 }
 
+// oldLoopVars: the repository's go.mod selects a language version before 1.22, in which the variables a for
+// statement declares are shared by all iterations.  The generated files carry a go1.23 build constraint (they use
+// generics and range-over-func), which would silently switch them to per-iteration variables; T9 restores the
+// repository's semantics for every loop whose variables are captured by a function literal or have their address taken.
+var oldLoopVars = true
+
+func goModBefore122(repo string) bool {
+	data, err := os.ReadFile(filepath.Join(repo, "go.mod"))
+	if err != nil {
+		return true
+	}
+	for _, l := range strings.Split(string(data), "\n") {
+		l = strings.TrimSpace(l)
+		if strings.HasPrefix(l, "go ") {
+			var maj, min int
+			fmt.Sscanf(strings.TrimPrefix(l, "go "), "%d.%d", &maj, &min)
+			return maj == 1 && min < 22
+		}
+	}
+	return true
+}
+
+// loopVarsCaptured reports whether one of the objects is referenced inside a function literal in body
+// or is (the root of) the operand of an address-of operator there.
+func loopVarsCaptured(p *pkgInfo, objs []types.Object, nodes ...ast.Node) bool {
+	isObj := func(id *ast.Ident) bool {
+		o := p.info.Uses[id]
+		for _, x := range objs {
+			if x != nil && o == x {
+				return true
+			}
+		}
+		return false
+	}
+	found := false
+	for _, body := range nodes {
+		if body == nil || found {
+			continue
+		}
+		ast.Inspect(body, func(n ast.Node) bool {
+			if found {
+				return false
+			}
+			switch x := n.(type) {
+			case *ast.FuncLit:
+				ast.Inspect(x, func(m ast.Node) bool {
+					if id, ok := m.(*ast.Ident); ok && isObj(id) {
+						found = true
+					}
+					return !found
+				})
+				return false
+			case *ast.UnaryExpr:
+				if x.Op == token.AND {
+					e := x.X
+					for {
+						switch y := e.(type) {
+						case *ast.ParenExpr:
+							e = y.X
+							continue
+						case *ast.SelectorExpr:
+							e = y.X
+							continue
+						case *ast.IndexExpr:
+							e = y.X
+							continue
+						}
+						break
+					}
+					if id, ok := e.(*ast.Ident); ok && isObj(id) {
+						found = true
+					}
+				}
+			}
+			return !found
+		})
+	}
+	return found
+}
+
+// plainExpr: the expression contains nothing the instrumenter rewrites (so its source text can be moved).
+func plainExpr(p *pkgInfo, e ast.Expr) bool {
+	ok := true
+	ast.Inspect(e, func(n ast.Node) bool {
+		switch x := n.(type) {
+		case *ast.FuncLit:
+			ok = false
+		case *ast.UnaryExpr:
+			if x.Op == token.ARROW {
+				ok = false
+			}
+		case *ast.CallExpr:
+			if id, isId := x.Fun.(*ast.Ident); isId && (isBuiltin(p, id, "close") || isBuiltin(p, id, "make")) {
+				ok = false
+			}
+			if se, isSel := x.Fun.(*ast.SelectorExpr); isSel && pkgOf(p, se.X) == "time" {
+				ok = false
+			}
+		}
+		return ok
+	})
+	return ok
+}
+
+var loopSeq int
+
 func instrument(p *pkgInfo, f *fileInfo) []byte {
 	var edits []edit
 	add := func(pos, end int, text string) {
@@ -262,6 +369,24 @@ func instrument(p *pkgInfo, f *fileInfo) []byte {
 	}
 	handled := map[ast.Node]bool{}
 	usesTime := false
+	labeled := map[ast.Stmt]bool{}
+	ast.Inspect(f.ast, func(n ast.Node) bool {
+		if l, ok := n.(*ast.LabeledStmt); ok {
+			labeled[l.Stmt] = true
+		}
+		return true
+	})
+	defObjs := func(es ...ast.Expr) []types.Object {
+		var out []types.Object
+		for _, e := range es {
+			if id, ok := e.(*ast.Ident); ok && id.Name != "_" {
+				if o := p.info.Defs[id]; o != nil {
+					out = append(out, o)
+				}
+			}
+		}
+		return out
+	}
 
 	// imports
 	for _, is := range f.ast.Imports {
@@ -289,6 +414,53 @@ func instrument(p *pkgInfo, f *fileInfo) []byte {
 	ast.Inspect(f.ast, func(n ast.Node) bool {
 		switch x := n.(type) {
 		case *ast.RangeStmt:
+			if oldLoopVars && x.Tok == token.DEFINE {
+				if objs := defObjs(x.Key, x.Value); len(objs) > 0 && loopVarsCaptured(p, objs, x.Body) {
+					// T9: shared loop variables
+					zero := ""
+					if tv, ok := p.info.Types[x.X]; ok && tv.Type != nil {
+						switch u := tv.Type.Underlying().(type) {
+						case *types.Map:
+							zero = "ZeroKV"
+						case *types.Slice:
+							zero = "ZeroIE"
+						case *types.Basic:
+							if u.Info()&types.IsString != 0 {
+								zero = "ZeroStr"
+							}
+						}
+					}
+					if zero == "" || labeled[x] || !plainExpr(p, x.X) {
+						unsupp = append(unsupp, fmt.Sprintf("%s: range loop whose variables are captured (shared-variable semantics of go < 1.22) has a form the instrumenter cannot rewrite", where(x)))
+					} else {
+						loopSeq++
+						tmp := fmt.Sprintf("_vrx%d", loopSeq)
+						k, v := "_", "_"
+						if x.Key != nil {
+							k = f.text(x.Key)
+						}
+						if x.Value != nil {
+							v = f.text(x.Value)
+						}
+						rng := tmp
+						if zero == "ZeroKV" {
+							rng = "verifrt.RangeMap(" + tmp + ")"
+						}
+						hdr := fmt.Sprintf("{ %s := %s; %s, %s := verifrt.%s(%s); for %s, %s = range %s ", tmp, f.text(x.X), k, v, zero, tmp, k, v, rng)
+						if k == "_" && v != "_" {
+							hdr = fmt.Sprintf("{ %s := %s; _, %s := verifrt.%s(%s); for _, %s = range %s ", tmp, f.text(x.X), v, zero, tmp, v, rng)
+						}
+						if v == "_" {
+							hdr = fmt.Sprintf("{ %s := %s; %s, _ := verifrt.%s(%s); for %s = range %s ", tmp, f.text(x.X), k, zero, tmp, k, rng)
+						}
+						repl(x.For, x.Body.Lbrace, hdr)
+						ins(x.Body.Lbrace+1, " verifrt.Tick();")
+						ins(x.End(), " }")
+						fmt.Fprintf(os.Stderr, "vinstr: T9 shared loop variables kept at %s\n", where(x))
+						return true // the moved range expression contains nothing that is rewritten (plainExpr)
+					}
+				}
+			}
 			if isMap(p, x.X) {
 				ins(x.X.Pos(), "verifrt.RangeMap(")
 				ins(x.X.End(), ")")
@@ -299,6 +471,22 @@ func instrument(p *pkgInfo, f *fileInfo) []byte {
 			}
 			ins(x.Body.Lbrace+1, " verifrt.Tick();")
 		case *ast.ForStmt:
+			if oldLoopVars {
+				if as, ok := x.Init.(*ast.AssignStmt); ok && as.Tok == token.DEFINE {
+					if objs := defObjs(as.Lhs...); len(objs) > 0 && loopVarsCaptured(p, objs, x.Body, x.Post, x.Cond) {
+						if labeled[x] {
+							unsupp = append(unsupp, fmt.Sprintf("%s: labelled for loop whose variables are captured (shared-variable semantics of go < 1.22)", where(x)))
+						} else {
+							// T9: `for i := a; c; p {` -> `{ i := a; for ; c; p {`  ...  `}`
+							ins(x.For, "{ ")
+							repl(x.For, x.Init.Pos(), "")
+							ins(x.Init.End(), "; for ")
+							ins(x.End(), " }")
+							fmt.Fprintf(os.Stderr, "vinstr: T9 shared loop variables kept at %s\n", where(x))
+						}
+					}
+				}
+			}
 			ins(x.Body.Lbrace+1, " verifrt.Tick();")
 		case *ast.GoStmt:
 			call := x.Call
